@@ -157,11 +157,23 @@ template <int S> static void explore(Ctx &c, long &id) {
   }
 }
 
+// long splines: segment counts around powers of two (blocked / unrolled loops change behaviour exactly there), uniform and alternating durations
+template <int S> static void explore_long(Ctx &c, long &id) {
+  for (int N : {31, 32, 33, 64}) for (int pat = 0; pat < 2; ++pat) {
+    long my = id++; if (!c.mine(my)) continue; std::string unit = str(my); if (!c.begin(unit)) continue;
+    const double *L = letters(S); std::vector<double> T(N); for (int i = 0; i < N; ++i) T[i] = pat == 0 ? L[1] : ((i & 1) ? L[1] : L[1] * 0.5);
+    Runner<S> r(c, unit); r.run_case(N, T, false, pat ? -2.5 : 1024.125);
+    ++c.st.evaluations; if (!c.st.seen(fmt("long/S%d/N%d/%d", S, N, pat))) ++c.st.nontrivial; c.st.cls(fmt("%s/long (N around 32, 64)", order_name(S)));
+    if (N == 32) c.st.sample(fmt("unit %ld: %s D=%d N=%d %s durations: library coefficients vs dense long-double solve for all %d basis data vectors + generic data", my, order_name(S), D, N, pat ? "alternating" : "uniform", nbasis(S, N)));
+  }
+}
+
 int main(int argc, char **argv) {
   Args a = parse_args(argc, argv);
   return supervise(a, [&](Ctx &c) {
     long id = 0;
     explore<2>(c, id); explore<3>(c, id); explore<4>(c, id);
+    explore_long<2>(c, id); explore_long<3>(c, id); explore_long<4>(c, id);
     c.st.notes["dim"] = str(D);
   });
 }
